@@ -71,21 +71,21 @@ class SimTmp:
         self.closed = True
 
 
-class SimWorker:
+from gunicorn.workers import base as _base      # noqa: E402
+
+
+class SimWorker(_base.Worker):
+    """A real gunicorn Worker object as the arbiter builds it (so every attribute the arbiter may look at exists);
+    only its heartbeat file is replaced by the scripted one."""
     kernel = None
     last = None
 
     def __init__(self, age, ppid, sockets, app, timeout, cfg, log):
-        self.age = age
-        self.ppid = ppid
-        self.sockets = sockets
-        self.app = app
-        self.timeout = timeout
-        self.cfg = cfg
-        self.log = log
-        self.pid = "[booting]"
-        self.booted = False
-        self.aborted = False
+        super().__init__(age, ppid, sockets, app, timeout, cfg, log)
+        try:
+            self.tmp.close()
+        except Exception:
+            pass
         self.tmp = SimTmp(self)
         SimWorker.last = self
         SimWorker.kernel.log.append((SimWorker.kernel.now, "worker_object", age, timeout))
